@@ -28,7 +28,23 @@ typedef struct
 
 static Script scripts [128] ; static int nscripts ;
 
-typedef struct { Script *s ; MemDev dev ; SNDFILE *sf ; int step ; uint64_t tr [NSTEPS + 1] ; } Handle ;
+typedef struct { Script *s ; MemDev dev ; SNDFILE *sf ; int step, slot ; char path [300] ; uint64_t tr [NSTEPS + 1] ; } Handle ;
+
+/* kinds 2 and 3 are the write / read scripts through sf_open on a real path in the worker's TMPDIR (descriptors, SD2 resource forks) */
+static void handle_path (Handle *h)
+{	const char *t = getenv ("TMPDIR") ; int sd2 = (h->s->f->format & SF_FORMAT_TYPEMASK) == SF_FORMAT_SD2 ;
+	snprintf (h->path, sizeof (h->path), "%s/iso_%d_%d.%s", t && t [0] ? t : "/tmp", (int) getpid (), h->slot, sd2 ? "sd2" : "dat") ;
+}
+static void path_cleanup (const char *path)
+{	char rs [400] ; const char *slash = strrchr (path, '/') ; unlink (path) ;
+	snprintf (rs, sizeof (rs), "%.*s/._%s", (int) (slash - path), path, slash + 1) ; unlink (rs) ;
+}
+static uint64_t file_hash (const char *path)
+{	int fd = sio_real_open (path, 0, 0) ; static unsigned char buf [65536] ; long n ; uint64_t hh = VL_H0 ;
+	if (fd < 0) return 1 ;
+	while ((n = sio_real_read (fd, buf, sizeof (buf))) > 0) hh = vl_hash (buf, n, hh) ;
+	sio_real_close (fd) ; return hh ;
+}
 
 static short sdata [9000] ; static float fdata [9000] ;
 
@@ -42,9 +58,12 @@ static uint64_t do_step (Handle *h, int k)
 	int e_before = 0 ;
 	if (h->sf) INLIB (e_before = sf_error (h->sf)) ;
 	t = vl_hash_u64 (e_before, t) ;
-	if (s->kind == 0)
+	if (s->kind == 0 || s->kind == 2)
 		switch (k)
-		{	case 0 : { SF_INFO info ; md_reset (&h->dev) ; rt_info (&info, s->f, ch, fmt_default_rate (s->f)) ; h->sf = md_open (&h->dev, SFM_WRITE, &info) ; t = vl_hash_u64 (h->sf != NULL, t) ; } break ;
+		{	case 0 : { SF_INFO info ; rt_info (&info, s->f, ch, fmt_default_rate (s->f)) ;
+						if (s->kind == 0) { md_reset (&h->dev) ; h->sf = md_open (&h->dev, SFM_WRITE, &info) ; }
+						else { handle_path (h) ; path_cleanup (h->path) ; INLIB (h->sf = sf_open (h->path, SFM_WRITE, &info)) ; }
+						t = vl_hash_u64 (h->sf != NULL, t) ; } break ;
 			case 1 : t = vl_hash_u64 (vl_write (h->sf, T_SHORT, 1, sdata, B - 1), t) ; break ;
 			case 2 : t = vl_hash_u64 (vl_write (h->sf, T_FLOAT, 0, fdata, (B + 1) * ch), t) ; break ;
 			case 3 : t = vl_hash_u64 (vl_read (h->sf, T_SHORT, 1, sb, 2), t) ; break ;						/* failing call: read on a write handle */
@@ -55,7 +74,15 @@ static uint64_t do_step (Handle *h, int k)
 			}
 	else
 		switch (k)
-		{	case 0 : { SF_INFO info ; md_set (&h->dev, s->seed, s->seed_len) ; rt_info_read (&info, s->f, ch, fmt_default_rate (s->f)) ; h->sf = md_open (&h->dev, SFM_READ, &info) ;
+		{	case 0 : { SF_INFO info ; rt_info_read (&info, s->f, ch, fmt_default_rate (s->f)) ;
+						if (s->kind == 1) { md_set (&h->dev, s->seed, s->seed_len) ; h->sf = md_open (&h->dev, SFM_READ, &info) ; }
+						else
+						{	/* the file is produced by a plain write through the same path first */
+							SF_INFO wi ; SNDFILE *w ; int B2 = s->B > 1 && s->B < 1200 ? s->B : 16 ;
+							handle_path (h) ; path_cleanup (h->path) ; rt_info (&wi, s->f, ch, fmt_default_rate (s->f)) ;
+							INLIB (w = sf_open (h->path, SFM_WRITE, &wi)) ; if (w) { vl_write (w, T_SHORT, 1, sdata, 3 * B2 + 20) ; INLIB (sf_close (w)) ; }
+							INLIB (h->sf = sf_open (h->path, SFM_READ, &info)) ;
+							}
 						t = vl_hash_u64 (h->sf != NULL, vl_hash_u64 (info.frames, vl_hash_u64 (info.format, t))) ; } break ;
 			case 1 : { sf_count_t r = vl_read (h->sf, T_SHORT, 1, sb, B + 1) ; t = vl_hash_u64 (r, t) ; if (r > 0) t = vl_hash (sb, r * ch * 2, t) ; } break ;
 			case 2 : { sf_count_t r ; INLIB (r = sf_seek (h->sf, 1, SEEK_SET)) ; t = vl_hash_u64 (r, t) ; } break ;
@@ -69,10 +96,13 @@ static uint64_t do_step (Handle *h, int k)
 	return t ;
 }
 
+static uint64_t final_hash (Handle *h) { return h->s->kind >= 2 ? file_hash (h->path) : md_hash (&h->dev) ; }
+
 static void run_solo (Script *s, uint64_t *tr)
 {	Handle h ; memset (&h, 0, sizeof (h)) ; h.s = s ; md_init (&h.dev) ;
 	for (int k = 0 ; k < NSTEPS ; k++) tr [k] = do_step (&h, k) ;
-	tr [NSTEPS] = md_hash (&h.dev) ;
+	tr [NSTEPS] = final_hash (&h) ;
+	if (s->kind >= 2) path_cleanup (h.path) ;
 	md_free (&h.dev) ;
 }
 
@@ -111,26 +141,36 @@ static void build_scripts (void)
 			nscripts ++ ;
 			}
 		}
+	{	static const char *pf [] = { "sd2/pcm_16/file", "sd2/pcm_24/file", "wav/pcm_16/file", "aiff/pcm_16/file", "caf/alac_16/file", "au/ulaw/file", NULL } ;
+		for (int i = 0 ; pf [i] ; i++)
+		{	const Fmt *f = fmt_by_name (pf [i]) ; if (! f) continue ;
+			for (int kind = 2 ; kind < 4 ; kind++)
+			{	Script *s = &scripts [nscripts++] ; memset (s, 0, sizeof (*s)) ;
+				s->f = f ; s->ch = 2 ; s->kind = kind ; s->B = fmt_block (f, 2, fmt_default_rate (f)) ;
+				}
+			}
+		}
 	md_free (&d) ;
 }
 
-static const char *sname (const Script *s) { return rt_sig ("%s:%s", s->f->name, s->kind ? "R" : "W") ; }
+static const char *sname (const Script *s) { static const char *kn [4] = { "W", "R", "Wpath", "Rpath" } ; return rt_sig ("%s:%s", s->f->name, kn [s->kind]) ; }
 
 /* run one schedule (sequence of handle indices, one per step) over n handles and compare with the solo transcripts */
 static void run_schedule (Script **ss, int n, const int *order, int total)
 {	Handle h [4] ; uint64_t oh = VL_H0 ;
-	for (int i = 0 ; i < n ; i++) { memset (&h [i], 0, sizeof (h [i])) ; h [i].s = ss [i] ; md_init (&h [i].dev) ; }
+	for (int i = 0 ; i < n ; i++) { memset (&h [i], 0, sizeof (h [i])) ; h [i].s = ss [i] ; h [i].slot = i ; md_init (&h [i].dev) ; }
 	for (int t = 0 ; t < total ; t++)
 	{	Handle *x = &h [order [t]] ;
 		x->tr [x->step] = do_step (x, x->step) ; x->step ++ ;
 		vl_count_transitions (1) ;
 		}
 	for (int i = 0 ; i < n ; i++)
-	{	h [i].tr [NSTEPS] = md_hash (&h [i].dev) ;
+	{	h [i].tr [NSTEPS] = final_hash (&h [i]) ;
+		if (h [i].s->kind >= 2) path_cleanup (h [i].path) ;
 		if (ss [i]->solo_ok)
 			for (int k = 0 ; k <= NSTEPS ; k++)
 				if (h [i].tr [k] != ss [i]->solo [k])
-				{	vl_violation (rt_sig ("%s|%s", rt_fam (ss [i]->f), k == NSTEPS ? "final-file-differs" : ss [i]->kind ? "read-script-step-differs" : "write-script-step-differs"),
+				{	vl_violation (rt_sig ("%s|%s", rt_fam (ss [i]->f), k == NSTEPS ? "final-file-differs" : (ss [i]->kind & 1) ? "read-script-step-differs" : "write-script-step-differs"),
 						"handle %d (%s) interleaved with %s%s: %s differs from the solo run", i, sname (ss [i]), sname (ss [(i + 1) % n]), n > 2 ? " and another" : "", k == NSTEPS ? "final file" : rt_sig ("step %d", k)) ;
 					break ;
 					}
